@@ -2504,10 +2504,14 @@ class NetCDFRead(IORead):
 
         instance_dimension_size = indexed["instance_dimension_size"]
 
-        element_dimension_1_size = int(profiles_per_instance.max())
-        element_dimension_2_size = int(
-            self.implementation.get_data_maximum(elements_per_profile)
-        )
+        # A feature type with no profiles at all implies element
+        # dimensions of size zero
+        element_dimension_1_size = int(profiles_per_instance.max(initial=0))
+        element_dimension_2_size = 0
+        if self.implementation.get_data_size(elements_per_profile):
+            element_dimension_2_size = int(
+                self.implementation.get_data_maximum(elements_per_profile)
+            )
 
         g["compression"][sample_dimension]["ragged_indexed_contiguous"] = {
             "count_variable": elements_per_profile,
@@ -2975,9 +2979,11 @@ class NetCDFRead(IORead):
         instance_dimension_size = self.implementation.get_data_size(
             elements_per_instance
         )
-        element_dimension_size = int(
-            self.implementation.get_data_maximum(elements_per_instance)
-        )
+        element_dimension_size = 0
+        if instance_dimension_size:
+            element_dimension_size = int(
+                self.implementation.get_data_maximum(elements_per_instance)
+            )
 
         # Make sure that the element dimension name is unique
         element_dimension = self._new_ncdimension(
@@ -3035,7 +3041,9 @@ class NetCDFRead(IORead):
             instance_dimension
         ]
 
-        element_dimension_size = int(elements_per_instance.max())
+        # An index variable with no elements (every instance is
+        # empty) implies an element dimension of size zero
+        element_dimension_size = int(elements_per_instance.max(initial=0))
         element_dimension = self._new_ncdimension(
             element_dimension, element_dimension_size
         )
